@@ -11,6 +11,8 @@ dyads (M = 60 quick, 300 thorough).
 from __future__ import annotations
 
 import math
+
+import sympy
 from fractions import Fraction
 
 from hypothesis import strategies as st
@@ -19,7 +21,9 @@ from vx import campaign, harness
 from vx.harness import norm
 
 RULE = ("n enumerated exhaustively in a range, pairs enumerated exhaustively for the dyads, plus Hypothesis-generated "
-        "larger arguments; non-trivial = n >= 2 (pairs: both >= 2); distinct by (element, arguments)")
+        "larger arguments, every argument given both as Python int and as sympy Integer; plus Hypothesis-drawn query "
+        "histories of length <= 4, each run in a newly forked process; non-trivial = n >= 2 (pairs: both >= 2; "
+        "histories: a query after the first); distinct by (element, arguments, representation)")
 ASSUMPTIONS = [
     "textbook definitions as written in this file (trial division etc.) are the oracle",
     "prime factors / divisors / totient are claimed for n >= 1, previous prime for n >= 3, as those are the domains "
@@ -158,13 +162,18 @@ DYADS = {
 }
 
 
-def check_monad(op, n):
+_REP_TAG = {"int": "", "sym": ":sympy-integer", "mixed": ":int-and-sympy-integer"}
+_REP_MSG = {"int": "", "sym": " (argument given as sympy Integer, as a literal would be)", "mixed": " (first argument a Python int, second a sympy Integer)"}
+
+
+def check_monad(op, n, rep="int"):
+    """rep: how the argument is represented - a Python int (inputs, results of builtins) or a sympy Integer (literals)."""
     lo, ref, _ = MONADS[op]
     if n < lo:
         return None
     want = ref(n)
     try:
-        st_ = run_el(op, n)
+        st_ = run_el(op, n if rep == "int" else sympy.Integer(n))
     except (harness.FuelExhausted, harness.Inconclusive):
         raise
     except Exception as e:  # noqa: BLE001
@@ -173,7 +182,7 @@ def check_monad(op, n):
         return (f"C17:{op}:stack", f"{n} {op} left {len(st_)} values")
     got = norm(st_[0], cap=50_000)
     if got != want:
-        return (f"C17:{op}:value", f"{n} {op} = {harness.jsonable(got)!r:.200}, the definition gives {harness.jsonable(want)!r:.200}")
+        return (f"C17:{op}:value" + _REP_TAG[rep], f"{n} {op} = {harness.jsonable(got)!r:.200}, the definition gives {harness.jsonable(want)!r:.200}" + _REP_MSG[rep])
     return None
 
 
@@ -193,17 +202,17 @@ def check_inverse(name, n):
     return None
 
 
-def check_dyad(op, a, b):
+def check_dyad(op, a, b, rep="int"):
     want = DYADS[op](a, b)
     try:
-        st_ = run_el(op, a, b)
+        st_ = run_el(op, *((a, b) if rep == "int" else (sympy.Integer(a), sympy.Integer(b)) if rep == "sym" else (a, sympy.Integer(b))))
     except (harness.FuelExhausted, harness.Inconclusive):
         raise
     except Exception as e:  # noqa: BLE001
         return (f"C17:{op}:raises:{type(e).__name__}", f"{a} {b} {op} raised {type(e).__name__}: {e}")
     got = norm(st_[-1]) if st_ else None
     if len(st_) != 1 or got != want:
-        return (f"C17:{op}:value", f"{a} {b} {op} = {harness.jsonable(got)!r}, the definition gives {harness.jsonable(want)!r}")
+        return (f"C17:{op}:value" + _REP_TAG[rep], f"{a} {b} {op} = {harness.jsonable(got)!r}, the definition gives {harness.jsonable(want)!r}" + _REP_MSG[rep])
     return None
 
 
@@ -214,10 +223,11 @@ def _do_n(rec, n, cls, ops=None, range_cap=3000, fact_cap=400):
             continue
         if kind == "small" and n > fact_cap:
             continue
-        r = check_monad(op, n)
-        rec.case(key=(op, n), nontrivial=n >= 2, cls=[cls, f"el {op}"])
-        if r:
-            rec.fail(r[0], {"kind": "monad", "op": op, "n": n}, r[1])
+        for rep in ("int", "sym"):
+            r = check_monad(op, n, rep)
+            rec.case(key=(op, n, rep), nontrivial=n >= 2, cls=[cls, f"el {op}", f"argument as {rep}"])
+            if r:
+                rec.fail(r[0], {"kind": "monad", "op": op, "n": n, "rep": rep}, r[1])
     if ops is None:
         for name in INVERSES:
             r = check_inverse(name, n)
@@ -239,10 +249,11 @@ def _shard(rec, arg):
         for a in rows:
             for b in range(0, M + 1):
                 for op in DYADS:
-                    r = check_dyad(op, a, b)
-                    rec.case(key=(op, a, b), nontrivial=a >= 2 and b >= 2, cls=["exhaustive-pair", f"el {op}"])
-                    if r:
-                        rec.fail(r[0], {"kind": "dyad", "op": op, "a": a, "b": b}, r[1])
+                    for rep in ("int", "sym", "mixed"):
+                        r = check_dyad(op, a, b, rep)
+                        rec.case(key=(op, a, b, rep), nontrivial=a >= 2 and b >= 2, cls=["exhaustive-pair", f"el {op}", f"argument as {rep}"])
+                        if r:
+                            rec.fail(r[0], {"kind": "dyad", "op": op, "a": a, "b": b, "rep": rep}, r[1])
     elif what == "hyp":
         _, seed, n = arg
         sqrt_ops = [op for op, v in MONADS.items() if v[2] == "sqrt"]
@@ -251,7 +262,7 @@ def _shard(rec, arg):
         def t_mid(v):
             _do_n(rec, v, "random-n<=1e9", ops=sqrt_ops)
 
-        campaign.hyp_run(t_mid, {"v": st.one_of(st.integers(2, 10 ** 9), st.integers(2, 10 ** 6),
+        campaign.hyp_run(t_mid, {"v": st.one_of(st.integers(2, 10 ** 9), st.integers(2, 10 ** 6), st.integers(2, 2 ** 17),
                                                  st.integers(2, 31000).map(lambda p: p * p),
                                                  st.integers(1, 30).map(lambda k: 2 ** k - 1))}, seed, n)
 
@@ -287,17 +298,53 @@ def _shard(rec, arg):
 
         def t_pair(a, b):
             for op in ("ġ", "∆Ŀ"):
-                r = check_dyad(op, a, b)
-                rec.case(key=(op, a, b), nontrivial=a >= 2 and b >= 2, cls=["random-pair", f"el {op}"])
-                if r:
-                    rec.fail(r[0], {"kind": "dyad", "op": op, "a": a, "b": b}, r[1])
+                for rep in ("int", "sym", "mixed"):
+                    r = check_dyad(op, a, b, rep)
+                    rec.case(key=(op, a, b, rep), nontrivial=a >= 2 and b >= 2, cls=["random-pair", f"el {op}", f"argument as {rep}"])
+                    if r:
+                        rec.fail(r[0], {"kind": "dyad", "op": op, "a": a, "b": b, "rep": rep}, r[1])
 
         campaign.hyp_run(t_pair, {"a": st.integers(0, 10 ** 12), "b": st.integers(0, 10 ** 12)}, seed + 2, n)
+
+
+# ---- cold histories: short query sequences, each in a newly forked process ---------------------------------
+# State the builtins keep between calls (tables, memos) starts empty there, so an answer that depends on which
+# queries came before - in particular on the very first one being large - is visible.
+COLD_OPS = ["æ", "∆Ṗ", "∆ṗ", "ǐ", "K", "∆ṫ", "Ǐ", "∆K"]
+
+
+def _cold_histories(seed, n):
+    """Drawn with Hypothesis in the parent (nothing is executed here)."""
+    out = []
+    edge = [101 * 101, 101 * 103, 103 * 107, 127 * 131, 2 ** 15, 2 ** 16, 251 * 257, 1009 * 1013, 65521, 65537, 32749, 32771]
+    num = st.one_of(st.integers(2, 2 ** 17), st.integers(9000, 70000), st.integers(2, 10 ** 7),
+                    st.tuples(st.sampled_from(edge), st.integers(-3, 3)).map(lambda t: max(3, t[0] + t[1])))
+    step = st.tuples(st.sampled_from(COLD_OPS), num, st.sampled_from(["int", "int", "sym"]))
+
+    def t(h):
+        out.append([list(x) for x in h])
+
+    campaign.hyp_run(t, {"h": st.lists(step, min_size=1, max_size=4)}, seed, n)
+    return out
+
+
+def _shard_cold(rec, hist):
+    for i, (op, n, rep) in enumerate(hist):
+        r = check_monad(op, n, rep)
+        rec.case(key=(repr(hist[: i + 1])), nontrivial=i >= 1, cls=["cold-history", f"cold-history step {i}", f"el {op}"])
+        if r:
+            rec.fail(r[0] + ":cold-history", {"kind": "cold", "hist": hist[: i + 1]}, r[1] + f" [as query {i + 1} of the history {hist[: i + 1]!r} in a new process]")
+            return
 
 
 def run(rec, tier, seed):
     quick = tier == "quick"
     ns = campaign.NCPU
+    hists = _cold_histories(seed * 1000 + 77, 400 if quick else 6000)
+    campaign.parallel(rec, _shard_cold, hists, fresh=True)
+    rec.notes["cold_histories"] = len(hists)
+    if hists:
+        rec.sample({"cold-history": hists[min(3, len(hists) - 1)]})
     N = 2000 if quick else 20000
     M = 60 if quick else 300
     step = max(1, (N + 1) // (ns * 4))
@@ -316,11 +363,11 @@ def replay(case):
         if k == "monad" and case["op"] in MONADS and isinstance(case["n"], int) and case["n"] >= 0:
             if MONADS[case["op"]][2] in ("range", "small") and case["n"] > 3000:
                 return None
-            return check_monad(case["op"], case["n"])
+            return check_monad(case["op"], case["n"], case.get("rep") if case.get("rep") in ("int", "sym") else "int")
         if k == "inverse" and case["name"] in INVERSES and isinstance(case["n"], int) and case["n"] >= 0:
             return check_inverse(case["name"], case["n"])
         if k == "dyad" and case["op"] in DYADS and all(isinstance(case[x], int) and case[x] >= 0 for x in "ab"):
-            return check_dyad(case["op"], case["a"], case["b"])
+            return check_dyad(case["op"], case["a"], case["b"], case.get("rep") if case.get("rep") in _REP_TAG else "int")
         if k == "semi" and case["op"] in ("ǐ", "Ǐ", "æ"):
             p, q, e = case["p"], case["q"], bool(case["e"])
             if not (isinstance(p, int) and isinstance(q, int) and 2 <= p < 10 ** 8 and 2 <= q < 10 ** 8 and ref_is_prime(p) and ref_is_prime(q)):
@@ -335,6 +382,45 @@ def replay(case):
             if got != exp:
                 return (f"C17:{case['op']}:value", f"{n} {case['op']} = {harness.jsonable(got)!r}, the definition gives {harness.jsonable(exp)!r}")
             return None
+        if k == "cold":
+            hist = case["hist"]
+            if not (isinstance(hist, list) and hist and all(isinstance(x, list) and len(x) == 3 and x[0] in COLD_OPS and isinstance(x[1], int)
+                                                           and 0 <= x[1] <= 10 ** 9 and x[2] in ("int", "sym") for x in hist)):
+                return None
+            return _replay_cold(hist)
     except KeyError:
         return None
     return None
+
+
+def _cold_child(hist, q):
+    r = None
+    try:
+        for op, n, rep in hist:
+            r = check_monad(op, n, rep)
+            if r:
+                r = (r[0] + ":cold-history", r[1] + f" [history {hist!r} in a new process]")
+                break
+    except BaseException as e:  # noqa: BLE001
+        r = ("error", repr(e))
+    q.put(r)
+
+
+def _replay_cold(hist):
+    """Replays run in a newly forked process too (the parent may already have exercised the builtins)."""
+    import multiprocessing as mp
+
+    ctx = mp.get_context("fork")
+    q = ctx.Queue()
+    pr = ctx.Process(target=_cold_child, args=(hist, q))
+    pr.start()
+    try:
+        r = q.get(timeout=120)
+    except Exception:  # noqa: BLE001
+        r = None
+    pr.join(5)
+    if pr.is_alive():
+        pr.kill()
+    if r and r[0] == "error":
+        return None
+    return r
